@@ -82,15 +82,15 @@ struct / map with string keys / tuple in schema order, any field order, extra fi
 accepted by `to_marrow`: the returned arrays decode (`Spec.decodeAll`, the Arrow reading rules) to the same columns.
 Hypotheses: those of `C01.C01_build_decode`. -/
 theorem C11_presentations (ext : Ext) (fields : List Field) (rows1 rows2 : List SVal) (arrs1 arrs2 : List Arr)
-    (hmap : ∀ f ∈ fields, Lemmas.C03.Map2F f) (hschema : ∀ f ∈ fields, Lemmas.C03.SchemaOKF f)
+    (hschema : ∀ f ∈ fields, Lemmas.C03.SchemaOKF f)
     (hcov : fields.all Build.coveredF = true)
     (hsafe : ∀ root0, newRoot fields = .ok root0 → Safe root0)
     (hraw1 : ∀ x ∈ rows1, noRaw x = true) (hraw2 : ∀ x ∈ rows2, noRaw x = true)
     (hsame : rows1.map (interpRow ext fields) = rows2.map (interpRow ext fields))
     (h1 : toMarrow ext fields rows1 = .ok arrs1) (h2 : toMarrow ext fields rows2 = .ok arrs2) :
     arrs1.map decodeAll = arrs2.map decodeAll :=
-  DecodesTo_unique hsame (C01.C01_build_decode ext fields rows1 arrs1 hmap hschema hcov hsafe hraw1 h1)
-    (C01.C01_build_decode ext fields rows2 arrs2 hmap hschema hcov hsafe hraw2 h2)
+  DecodesTo_unique hsame (C01.C01_build_decode ext fields rows1 arrs1 hschema hcov hsafe hraw1 h1)
+    (C01.C01_build_decode ext fields rows2 arrs2 hschema hcov hsafe hraw2 h2)
 
 /-- the hypothesis of `C11_presentations` in index form: same number of records, record `i` means the same -/
 theorem same_rows_of_index (ext : Ext) (fields : List Field) (rows1 rows2 : List SVal) (hlen : rows1.length = rows2.length)
@@ -111,7 +111,7 @@ index: every presentation is refused although every record has a documented valu
 rows only, but that is not proved either).  What IS proved: acceptance of `rows1` gives every record of `rows1`, hence of
 `rows2`, a documented value (soundness, `C01_build_decode`). -/
 theorem C11_presentations_success_partial (ext : Ext) (fields : List Field) (rows1 rows2 : List SVal) (arrs1 : List Arr)
-    (hmap : ∀ f ∈ fields, Lemmas.C03.Map2F f) (hschema : ∀ f ∈ fields, Lemmas.C03.SchemaOKF f)
+    (hschema : ∀ f ∈ fields, Lemmas.C03.SchemaOKF f)
     (hcov : fields.all Build.coveredF = true)
     (hsafe : ∀ root0, newRoot fields = .ok root0 → Safe root0)
     (hraw1 : ∀ x ∈ rows1, noRaw x = true) (hraw2 : ∀ x ∈ rows2, noRaw x = true)
@@ -119,7 +119,7 @@ theorem C11_presentations_success_partial (ext : Ext) (fields : List Field) (row
     (hcomplete : (∀ x ∈ rows2, ∃ lv, interpRow ext fields x = .ok lv) → ∃ arrs2, toMarrow ext fields rows2 = .ok arrs2)
     (h1 : toMarrow ext fields rows1 = .ok arrs1) :
     ∃ arrs2, toMarrow ext fields rows2 = .ok arrs2 ∧ arrs1.map decodeAll = arrs2.map decodeAll := by
-  obtain ⟨_, cols, _, _, _, hr⟩ := C01.C01_build_decode ext fields rows1 arrs1 hmap hschema hcov hsafe hraw1 h1
+  obtain ⟨_, cols, _, _, _, hr⟩ := C01.C01_build_decode ext fields rows1 arrs1 hschema hcov hsafe hraw1 h1
   have hlen : rows1.length = rows2.length := by simpa using congrArg List.length hsame
   have hok : ∀ x ∈ rows2, ∃ lv, interpRow ext fields x = .ok lv := by
     intro x hx
@@ -130,7 +130,7 @@ theorem C11_presentations_success_partial (ext : Ext) (fields : List Field) (row
       simpa [List.getElem?_map, List.getElem?_eq_getElem hi, List.getElem?_eq_getElem hi1] using this
     exact ⟨_, by rw [← e]; exact hr i hi1⟩
   obtain ⟨arrs2, h2⟩ := hcomplete hok
-  exact ⟨arrs2, h2, C11_presentations ext fields rows1 rows2 arrs1 arrs2 hmap hschema hcov hsafe hraw1 hraw2 hsame h1 h2⟩
+  exact ⟨arrs2, h2, C11_presentations ext fields rows1 rows2 arrs1 arrs2 hschema hcov hsafe hraw1 hraw2 hsame h1 h2⟩
 
 /-! ### neighbours -/
 
@@ -148,7 +148,7 @@ function of its own documented value only: take two accepted batches (any sizes,
 differently presented records around) in which record `i` of the first and record `j` of the second mean the same;
 then slot `i` of the first batch's arrays decodes, column by column, like slot `j` of the second's. -/
 theorem C11_neighbours_undisturbed (ext : Ext) (fields : List Field) (rows1 rows2 : List SVal) (arrs1 arrs2 : List Arr)
-    (hmap : ∀ f ∈ fields, Lemmas.C03.Map2F f) (hschema : ∀ f ∈ fields, Lemmas.C03.SchemaOKF f)
+    (hschema : ∀ f ∈ fields, Lemmas.C03.SchemaOKF f)
     (hcov : fields.all Build.coveredF = true)
     (hsafe : ∀ root0, newRoot fields = .ok root0 → Safe root0)
     (hraw1 : ∀ x ∈ rows1, noRaw x = true) (hraw2 : ∀ x ∈ rows2, noRaw x = true)
@@ -156,8 +156,8 @@ theorem C11_neighbours_undisturbed (ext : Ext) (fields : List Field) (rows1 rows
     (i j : Nat) (hi : i < rows1.length) (hj : j < rows2.length)
     (hsame : interpRow ext fields rows1[i] = interpRow ext fields rows2[j]) :
     (arrs1.map decodeAll).map (·[i]?) = (arrs2.map decodeAll).map (·[j]?) := by
-  obtain ⟨_, cols1, a1, _, l1, r1⟩ := C01.C01_build_decode ext fields rows1 arrs1 hmap hschema hcov hsafe hraw1 h1
-  obtain ⟨_, cols2, a2, _, l2, r2⟩ := C01.C01_build_decode ext fields rows2 arrs2 hmap hschema hcov hsafe hraw2 h2
+  obtain ⟨_, cols1, a1, _, l1, r1⟩ := C01.C01_build_decode ext fields rows1 arrs1 hschema hcov hsafe hraw1 h1
+  obtain ⟨_, cols2, a2, _, l2, r2⟩ := C01.C01_build_decode ext fields rows2 arrs2 hschema hcov hsafe hraw2 h2
   rw [a1, a2, slot_of_cols _ i hi cols1 l1, slot_of_cols _ j hj cols2 l2]
   have e1 := r1 i hi
   rw [hsame, r2 j hj] at e1
@@ -170,14 +170,14 @@ theorem C11_neighbours_undisturbed (ext : Ext) (fields : List Field) (rows1 rows
 an absent non-nullable field, a field given twice, a value the column cannot hold, …), `to_marrow` does not succeed —
 in any presentation.  (Contrapositive of the soundness half of `C01_build_decode`.) -/
 theorem C11_undefined_refused (ext : Ext) (fields : List Field) (rows : List SVal)
-    (hmap : ∀ f ∈ fields, Lemmas.C03.Map2F f) (hschema : ∀ f ∈ fields, Lemmas.C03.SchemaOKF f)
+    (hschema : ∀ f ∈ fields, Lemmas.C03.SchemaOKF f)
     (hcov : fields.all Build.coveredF = true)
     (hsafe : ∀ root0, newRoot fields = .ok root0 → Safe root0)
     (hraw : ∀ x ∈ rows, noRaw x = true)
     (x : SVal) (hx : x ∈ rows) (e : Fail) (hbad : interpRow ext fields x = .error e) :
     ∀ arrs, toMarrow ext fields rows ≠ .ok arrs := by
   intro arrs h
-  obtain ⟨_, cols, _, _, _, hr⟩ := C01.C01_build_decode ext fields rows arrs hmap hschema hcov hsafe hraw h
+  obtain ⟨_, cols, _, _, _, hr⟩ := C01.C01_build_decode ext fields rows arrs hschema hcov hsafe hraw h
   obtain ⟨i, hi, rfl⟩ := List.getElem_of_mem hx
   rw [hr i hi] at hbad
   cases hbad
@@ -185,7 +185,7 @@ theorem C11_undefined_refused (ext : Ext) (fields : List Field) (rows : List SVa
 /-- a record that leaves out a non-nullable column, or gives a column twice, is refused by `to_marrow` (root level;
 the same at any nesting depth through `interpDT`, `absent_required_is_error` / `duplicate_is_error`) -/
 theorem C11_missing_or_duplicate_refused (ext : Ext) (fields : List Field) (rows : List SVal)
-    (hmap : ∀ f ∈ fields, Lemmas.C03.Map2F f) (hschema : ∀ f ∈ fields, Lemmas.C03.SchemaOKF f)
+    (hschema : ∀ f ∈ fields, Lemmas.C03.SchemaOKF f)
     (hcov : fields.all Build.coveredF = true)
     (hsafe : ∀ root0, newRoot fields = .ok root0 → Safe root0)
     (hraw : ∀ x ∈ rows, noRaw x = true)
@@ -198,7 +198,7 @@ theorem C11_missing_or_duplicate_refused (ext : Ext) (fields : List Field) (rows
     · exact absent_required_is_error ext _ false [] nm fs f hf' h1 h2
     · exact duplicate_is_error ext _ false [] nm fs f hf' h
   obtain ⟨e, he⟩ := this
-  exact C11_undefined_refused ext fields rows hmap hschema hcov hsafe hraw _ hx e he
+  exact C11_undefined_refused ext fields rows hschema hcov hsafe hraw _ hx e he
 
 /-! ### along ArrayBuilder histories -/
 
@@ -206,7 +206,7 @@ theorem C11_missing_or_duplicate_refused (ext : Ext) (fields : List Field) (rows
 by record, the same logical rows (in whatever presentation, added through whatever front end): every build of the one
 returns arrays that decode exactly like the arrays of the corresponding build of the other. -/
 theorem C11_histories_presentations (ext : Ext) (fields : List Field) (r0 : B) (h0 : newRoot fields = .ok r0)
-    (hmap : ∀ f ∈ fields, Lemmas.C03.Map2F f) (hschema : ∀ f ∈ fields, Lemmas.C03.SchemaOKF f)
+    (hschema : ∀ f ∈ fields, Lemmas.C03.SchemaOKF f)
     (hcov : fields.all Build.coveredF = true) (hsafe : Safe r0)
     (ops ops' : List C10.Op) (hraw : C10.OpsOK (fun x => noRaw x = true) ops)
     (hraw' : C10.OpsOK (fun x => noRaw x = true) ops')
@@ -215,8 +215,8 @@ theorem C11_histories_presentations (ext : Ext) (fields : List Field) (r0 : B) (
     (outs outs' : List (B × List Arr)) (fin fin' : B)
     (h : C10.run ext r0 ops = .ok (outs, fin)) (h' : C10.run ext r0 ops' = .ok (outs', fin')) :
     outs.map (·.2.map decodeAll) = outs'.map (·.2.map decodeAll) := by
-  obtain ⟨l1, b1, d1⟩ := C10.C10_histories ext fields r0 h0 hmap hschema hcov hsafe ops hraw outs fin h
-  obtain ⟨l2, b2, d2⟩ := C10.C10_histories ext fields r0 h0 hmap hschema hcov hsafe ops' hraw' outs' fin' h'
+  obtain ⟨l1, b1, d1⟩ := C10.C10_histories ext fields r0 h0 hschema hcov hsafe ops hraw outs fin h
+  obtain ⟨l2, b2, d2⟩ := C10.C10_histories ext fields r0 h0 hschema hcov hsafe ops' hraw' outs' fin' h'
   have hb : (C10.batchesFrom [] ops).length = (C10.batchesFrom [] ops').length := by
     simpa using congrArg List.length hsame
   apply List.ext_getElem (by simp only [List.length_map]; omega)
@@ -244,14 +244,14 @@ theorem items_serRows (al : Nat) (vs : List SVal) : C10.serRows (serItems al vs)
 other struct type with the one field `item`, maps `{"item": v}`, … — as long as record by record they mean what `Item(v)`
 means: the arrays `to_marrow` returns for `Items(vs)` decode like the arrays it returns for `rows`. -/
 theorem items_arrays (ext : Ext) (fields : List Field) (al : Nat) (vs rows : List SVal) (arrs1 arrs2 : List Arr)
-    (hmap : ∀ f ∈ fields, Lemmas.C03.Map2F f) (hschema : ∀ f ∈ fields, Lemmas.C03.SchemaOKF f)
+    (hschema : ∀ f ∈ fields, Lemmas.C03.SchemaOKF f)
     (hcov : fields.all Build.coveredF = true)
     (hsafe : ∀ root0, newRoot fields = .ok root0 → Safe root0)
     (hraw1 : ∀ v ∈ vs, noRaw v = true) (hraw2 : ∀ x ∈ rows, noRaw x = true)
     (hsame : (vs.map (serItem al)).map (interpRow ext fields) = rows.map (interpRow ext fields))
     (h1 : toMarrow ext fields (vs.map (serItem al)) = .ok arrs1) (h2 : toMarrow ext fields rows = .ok arrs2) :
     arrs1.map decodeAll = arrs2.map decodeAll :=
-  C11_presentations ext fields _ rows arrs1 arrs2 hmap hschema hcov hsafe
+  C11_presentations ext fields _ rows arrs1 arrs2 hschema hcov hsafe
     (by
       intro x hx
       obtain ⟨v, hv, rfl⟩ := List.mem_map.1 hx
@@ -293,7 +293,6 @@ theorem exSame : exRows1.map (interpRow {} exFields) = exRows2.map (interpRow {}
 theorem exOk : (toMarrow {} exFields exRows1).isOk = true ∧ (toMarrow {} exFields exRows2).isOk = true := by
   constructor <;> decide +kernel
 
-theorem exMap : ∀ f ∈ exFields, Lemmas.C03.Map2F f := by simp [exFields, Lemmas.C03.Map2F, Lemmas.C03.Map2]
 theorem exSchema : ∀ f ∈ exFields, Lemmas.C03.SchemaOKF f := by simp [exFields, Lemmas.C03.SchemaOKF, Lemmas.C03.SchemaOK]
 theorem exSafe : ∀ root0, newRoot exFields = .ok root0 → Safe root0 := by
   intro root0 h0
@@ -306,14 +305,14 @@ theorem exSafe : ∀ root0, newRoot exFields = .ok root0 → Safe root0 := by
 /-- `C11_presentations` applies with every hypothesis discharged -/
 example : ∀ arrs1 arrs2, toMarrow {} exFields exRows1 = .ok arrs1 → toMarrow {} exFields exRows2 = .ok arrs2 →
     arrs1.map decodeAll = arrs2.map decodeAll := fun arrs1 arrs2 h1 h2 =>
-  C11_presentations {} exFields exRows1 exRows2 arrs1 arrs2 exMap exSchema (by decide) exSafe (by decide) (by decide)
+  C11_presentations {} exFields exRows1 exRows2 arrs1 arrs2 exSchema (by decide) exSafe (by decide) (by decide)
     exSame h1 h2
 
 /-- `C11_neighbours_undisturbed`: the second record of the struct batch alone, as a tuple: slot 1 there = slot 0 here -/
 example : ∀ arrs1 arrs2, toMarrow {} exFields exRows1 = .ok arrs1 →
     toMarrow {} exFields [.tuple (.cons (.int .i64 2) (.cons .none .nil))] = .ok arrs2 →
     (arrs1.map decodeAll).map (·[1]?) = (arrs2.map decodeAll).map (·[0]?) := fun arrs1 arrs2 h1 h2 =>
-  C11_neighbours_undisturbed {} exFields exRows1 _ arrs1 arrs2 exMap exSchema (by decide) exSafe (by decide) (by decide)
+  C11_neighbours_undisturbed {} exFields exRows1 _ arrs1 arrs2 exSchema (by decide) exSafe (by decide) (by decide)
     h1 h2 1 0 (by decide) (by decide) (by decide +kernel)
 
 /-- absent required field `a` / field `b` given twice: no documented value, refused -/
